@@ -20,7 +20,10 @@ def build(node, owned=None):
         return x
 
     if k == "Dense":
-        A = own(P.arrays(node)["A"])
+        A = P.arrays(node)["A"]
+        if node.get("int_dtype"):  # integer-valued payload handed over in an integer dtype (as in the library's docstrings)
+            A = A.astype(np.int64)
+        A = own(A)
         return cola.lazify(A) if via == "fn" else ops.Dense(A)
     if k == "Generic":
         A = own(P.arrays(node)["A"])
